@@ -108,3 +108,39 @@ Section Agg.
   Definition stats_events (L : list (bool * list (list event))) : list event :=
     concat (map (fun s => concat (snd s)) L).
 End Agg.
+
+(* ---------- the column buffer window the ingest-time persistent-query evaluator looks at ----------
+   pkg/segment/writer: every column of the open block has a buffer cbuf[0:cbufidx] of encoded records and
+   cstartidx, "start index of last record, so cbuf[cstartidx:cbufidx] is the encoded last record".
+   initAndBackFillColumn (value present) and the back-fill loop of doLogEventFilling (column absent from the
+   event) both set cstartidx = cbufidx before appending; segstream.go evaluates persistent queries on
+   getLastRecord() = cbuf[cstartidx:cbufidx]. *)
+Section Window.
+  Inductive wcell := WStr (s : bytes) | WInt (z : Z) | WFlt (bits : N).
+
+  Definition enc_cell (c : wcell) : bytes :=
+    match c with
+    | WStr s => 2 :: le16 (N.of_nat (length s)) ++ s          (* VALTYPE_ENC_SMALL_STRING, len, bytes *)
+    | WInt z => 16 :: le64 (Z.to_N (z mod 18446744073709551616)%Z)   (* VALTYPE_ENC_INT64 *)
+    | WFlt b => 17 :: le64 b                                    (* VALTYPE_ENC_FLOAT64, bit pattern *)
+    end.
+  Definition backfill_rec : bytes := [19].                      (* VALTYPE_ENC_BACKFILL *)
+  Definition rec_of (x : option wcell) : bytes :=
+    match x with Some v => enc_cell v | None => backfill_rec end.
+
+  Record colwip := mkCW { cw_buf : bytes; cw_start : nat }.
+  (* cstartidx = cbufidx; append *)
+  Definition cw_append (c : colwip) (r : bytes) : colwip := mkCW (cw_buf c ++ r) (length (cw_buf c)).
+  (* append WITHOUT moving cstartidx (what the back-fill loop would do without its first line) *)
+  Definition cw_append_nostart (c : colwip) (r : bytes) : colwip := mkCW (cw_buf c ++ r) (cw_start c).
+  Definition cw_last (c : colwip) : bytes := skipn (cw_start c) (cw_buf c).     (* getLastRecord *)
+
+  (* one column through the events of a block: Some = the event has the column, None = back-filled *)
+  Definition cw_step (c : colwip) (x : option wcell) : colwip := cw_append c (rec_of x).
+  Definition cw_empty : colwip := mkCW [] 0.
+  Definition cw_run (xs : list (option wcell)) : colwip := fold_left cw_step xs cw_empty.
+
+  Definition cw_step_nostart (c : colwip) (x : option wcell) : colwip :=
+    match x with Some v => cw_append c (enc_cell v) | None => cw_append_nostart c backfill_rec end.
+  Definition cw_run_nostart (xs : list (option wcell)) : colwip := fold_left cw_step_nostart xs cw_empty.
+End Window.
